@@ -2,3 +2,4 @@
 import Rmk.Properties.C07
 import Rmk.Properties.C17
 import Rmk.Properties.C18
+import Rmk.Properties.C13
